@@ -670,6 +670,42 @@ fn builder_sequences(rep: &mut Report, work: &Path) {
     check("path list [A], literal B, path C", s(Compiler::<RasnBackend, _>::new().add_asn_sources_by_path(vec![pa.clone()].into_iter()).add_asn_literal(mb).add_asn_by_path(&pc).compile_to_string()), &want_rs);
     check("path list [A, B], path list [C]", s(Compiler::<RasnBackend, _>::new().add_asn_sources_by_path(vec![pa.clone(), pb.clone()].into_iter()).add_asn_sources_by_path(vec![pc.clone()].into_iter()).compile_to_string()), &want_rs);
     check("literal A, literal B, path list [C] (TypeScript)", s(Compiler::<TypescriptBackend, _>::new().add_asn_literal(ma).add_asn_literal(mb).add_asn_sources_by_path(vec![pc.clone()].into_iter()).compile_to_string()), &want_ts);
+    // the order (and multiplicity) of the paths of a path list is the order of the sources: two files that define the same
+    // name differently, given in descending file-name order, and one file given twice, against the same texts as literals
+    {
+        let mz = "Ord-Mod DEFINITIONS AUTOMATIC TAGS ::= BEGIN\nShared ::= BOOLEAN\nOnlyZ ::= NULL\nEND\n";
+        let m1 = "Ord-Mod DEFINITIONS AUTOMATIC TAGS ::= BEGIN\nShared ::= INTEGER (0..7)\nOnlyA ::= OCTET STRING\nEND\n";
+        let (pz, p1) = (dir.join("z-last.asn"), dir.join("a-first.asn"));
+        let _ = std::fs::write(&pz, mz);
+        let _ = std::fs::write(&p1, m1);
+        let full = |r: Result<rasn_compiler::CompileResult, CompilerError>| r.map(|x| format!("{}\n-- warnings: {:?}", x.generated, x.warnings.iter().map(|w| w.to_string()).collect::<Vec<_>>())).map_err(|e| e.to_string());
+        for ts in [false, true] {
+            for (label, paths, texts) in [
+                ("path list [z-last, a-first] vs the literals in that order", vec![pz.clone(), p1.clone()], vec![mz, m1]),
+                ("path list [a-first, z-last] vs the literals in that order", vec![p1.clone(), pz.clone()], vec![m1, mz]),
+                ("path list [z-last, a-first, z-last] vs the literals in that order", vec![pz.clone(), p1.clone(), pz.clone()], vec![mz, m1, mz]),
+                ("path list [a-first, a-first] vs the literals in that order", vec![p1.clone(), p1.clone()], vec![m1, m1]),
+            ] {
+                let (got, want) = if ts {
+                    let mut c = Compiler::<TypescriptBackend, _>::new().add_asn_literal(texts[0]);
+                    for t in &texts[1..] {
+                        c = c.add_asn_literal(*t);
+                    }
+                    (full(Compiler::<TypescriptBackend, _>::new().add_asn_sources_by_path(paths.into_iter()).compile_to_string()), full(c.compile_to_string()))
+                } else {
+                    let mut c = Compiler::<RasnBackend, _>::new().add_asn_literal(texts[0]);
+                    for t in &texts[1..] {
+                        c = c.add_asn_literal(*t);
+                    }
+                    (full(Compiler::<RasnBackend, _>::new().add_asn_sources_by_path(paths.into_iter()).compile_to_string()), full(c.compile_to_string()))
+                };
+                match want {
+                    Ok(w) => check(&format!("{label}{}", if ts { " (TypeScript)" } else { "" }), got, &w),
+                    Err(e) => check(&format!("{label}: the literals do not compile"), Err(e), &String::new()),
+                }
+            }
+        }
+    }
     // output mode set first / in between / last; backend swapped afterwards: the file is the final backend's
     let out = dir.join("out");
     let read = |name: &str| std::fs::read_to_string(out.join(name)).map_err(|e| format!("{name}: {e}"));
